@@ -169,6 +169,120 @@ def run_gen(ctx, rnd, cov):
     cov["samples"] = [{"req": reqs[0][0], "model_hex": json.loads(outs[0])["hex"][:160]}]
 
 
+# ------------------------------------------------------------------ Part B: the real client
+def client_frames(rnd, quick):
+    """requests the real ProxyKmipClient / KMIPProxy emits (scripted transport, successful answers)
+    -> list of (frame bytes, operation, version)"""
+    import gen_client as G
+    import impl_client as IC
+    out = []
+    per = 3 if quick else 20
+    for v in VERSIONS:
+        for op in IC.OPS:
+            for k in range(per):
+                case = G.gen_case(rnd, op, v, "failure-msg" if k % 3 == 2 else "success")
+                try:
+                    obs = IC.run_case(case)
+                except Exception:
+                    continue
+                for h in obs.get("emitted") or []:
+                    out.append((bytes.fromhex(h), op, v))
+    return out
+
+
+def strip_crypto(req):
+    for it in req["items"]:
+        it["crypto"] = None
+    return req
+
+
+def run_client(ctx, rnd, cov):
+    quick = ctx.tier == "quick"
+    t1 = time.time()
+    frames = client_frames(rnd, quick)
+    cov["seconds"]["client_generate"] = round(time.time() - t1, 1)
+    t1 = time.time()
+    outs = ctx.run_model("Decode", [json.dumps({"hex": fr.hex(), "dv": 12}) for fr, _, _ in frames])
+    cov["seconds"]["model_driver_client_decode"] = round(time.time() - t1, 1)
+    first = {}
+    reenc = []
+    for (fr, op, v), line in zip(frames, outs):
+        cov["client_frames"] += 1
+        cov["client_by_op"][op] = cov["client_by_op"].get(op, 0) + 1
+        mo = json.loads(line)
+        msg, exc = decode_check.real_decode(fr)
+        # MONITOR (implementation only): C19 "every request it emits ... is decodable by the server"
+        if msg is None:
+            cov["monitor_failures"] += 1
+            ctx.report("c19:emitted-request-not-decodable:%s:%s" % (op, exc),
+                       "a request the real client emits under KMIP %d.%d is refused by the real server-side decoder (%s)"
+                       % (v // 10, v % 10, exc), {"kind": "client-frame", "op": op, "version": v, "hex": fr.hex()})
+        if not mo["ok"] and mo["err"] == "unmodelled":
+            cov["client_unmodelled"][mo["detail"]] = cov["client_unmodelled"].get(mo["detail"], 0) + 1
+            continue
+        if (msg is not None) != mo["ok"]:
+            cov["client_divergences"] += 1
+            first.setdefault("client", {"hex": fr.hex(), "op": op, "version": v,
+                                        "implementation": "accepts" if msg is not None else "rejects: %s" % exc,
+                                        "model": "accepts" if mo["ok"] else "rejects: %s %s" % (mo["err"], mo["detail"])})
+            continue
+        if msg is None:
+            continue
+        ar = decode_check.abstract_request(msg)
+        d = decode_check.first_difference(ar, mo["req"])
+        if d:
+            cov["client_divergences"] += 1
+            first.setdefault("client", {"hex": fr.hex(), "op": op, "version": v, "first_difference": d})
+            continue
+        cov["client_decoded_equal"] += 1
+        reenc.append((fr, op, v, ar))
+    # the abstract request re-encoded by the model: equal bytes where the client builds the model's representative
+    lines = []
+    for fr, op, v, ar in reenc:
+        req = json.loads(json.dumps(ar))
+        for it in req["items"]:
+            if it["op"] == "deriveKey":
+                it["ddata_hex"] = "" if not it.pop("ddata") else "".join("%02x" % ((i + 1) & 0xFF) for i in range(it.pop("dlen")))
+                it.pop("dlen", None)
+        lines.append(json.dumps({"req": req}))
+    t1 = time.time()
+    outs2 = ctx.run_model("EncodeRequest", lines) if lines else []
+    cov["seconds"]["model_driver_client_reencode"] = round(time.time() - t1, 1)
+    for (fr, op, v, ar), line in zip(reenc, outs2):
+        if not line.startswith("{"):
+            raise RuntimeError("EncodeRequest driver: %s" % line[:300])
+        mo = json.loads(line)
+        if mo["encodable"]:
+            cov["client_reencodable"] += 1
+            if not mo["roundtrip"]:
+                cov["roundtrip_failures"] += 1
+                first.setdefault("roundtrip", {"req": ar, "decoded": mo["decoded"]})
+            if mo["hex"] == fr.hex():
+                cov["client_reencoded_equal"] += 1
+                cov["client_equal_by_op"][op] = cov["client_equal_by_op"].get(op, 0) + 1
+            else:
+                # not a divergence by itself: the client may build another representative (other data, parameters,
+                # names); it is one when the model's bytes decode to something else than the client's request
+                d = decode_check.first_difference(strip_crypto(json.loads(json.dumps(mo["decoded"]))),
+                                                  strip_crypto(json.loads(json.dumps(ar))))
+                if d and mo["exact"]:
+                    cov["client_divergences"] += 1
+                    first.setdefault("client", {"hex": fr.hex(), "op": op, "version": v, "model_hex": mo["hex"],
+                                                "first_difference": "re-encoded: " + d})
+    concrete = [v for v in ctx.violations if not v["no_input"]]
+    if "client" in first and not concrete:
+        ctx.report("correspondence:client-request-decode",
+                   "requests emitted by the real client: the decoder model and RequestMessage.read differ on %d frames"
+                   % cov["client_divergences"],
+                   dict(first["client"], broken="Drivers/Decode.lean / Drivers/EncodeRequest.lean vs RequestMessage.read on client frames"),
+                   no_input=True)
+    if "roundtrip" in first and not concrete:
+        ctx.report("correspondence:request-roundtrip",
+                   "an encodable request abstracted from a client frame is not decoded back to norm r",
+                   dict(first["roundtrip"], broken="theorem C19Encode.request_roundtrip vs Drivers/EncodeRequest.lean"),
+                   no_input=True)
+
+
 # ------------------------------------------------------------------ the check
 def run(ctx, rng=None):
     logging.disable(logging.CRITICAL)
@@ -177,12 +291,15 @@ def run(ctx, rng=None):
     cov = {"requests": 0, "by_class": {}, "by_version": {}, "real_encoder_accepts": 0, "encodable": 0,
            "encodable_by_op": {}, "exact": 0, "byte_equal": 0, "byte_divergences": 0, "roundtrip_failures": 0,
            "real_read_of_model_bytes": 0, "real_read_failures": 0, "outside": {}, "outside_but_equal": 0,
-           "outside_but_real_accepts": 0, "monitor_failures": 0, "seconds": {}}
+           "outside_but_real_accepts": 0, "monitor_failures": 0, "seconds": {},
+           "client_frames": 0, "client_by_op": {}, "client_unmodelled": {}, "client_divergences": 0,
+           "client_decoded_equal": 0, "client_reencodable": 0, "client_reencoded_equal": 0, "client_equal_by_op": {}}
     run_gen(ctx, rnd, cov)
+    run_client(ctx, rnd, cov)
     cov["rule"] = ("requests = gen_engine.Gen.request (random operations, versions incl. unknown ones, batches, header "
                    "options) + every operation x version cell + larger batches; a request counts as non-trivial when it "
                    "is in the model's domain and both encoders produced bytes (byte_equal)")
-    cov["evaluations"] = cov["requests"]
+    cov["evaluations"] = cov["requests"] + cov["client_frames"]
     cov["distinct_nontrivial"] = cov["byte_equal"]
     cov["seconds"]["total"] = round(time.time() - t0, 1)
     return cov
